@@ -130,6 +130,10 @@ package rendering
 
 //@ func (*InvokeRenderer).RenderRuntimeEvent
 //@   modifies renderOut
+// C12 ("next ... if repeated before responding, returns the same invocation"): the event stays in the request buffer after it
+// has been rendered, and a repeated poll is served from there (the payload reader is consumed by the first one)
+//@   ensures [C12: the-event-stays-buffered-for-a-repeated-poll] s.invoke.Payload != nil && r0 == nil ==> (old(gm(bufLen, s.requestBuffer)) != 0 ==> gm(bufLen, s.requestBuffer) == old(gm(bufLen, s.requestBuffer)) && gm(bufContent, s.requestBuffer) == old(gm(bufContent, s.requestBuffer))) && (old(gm(bufLen, s.requestBuffer)) == 0 ==> gm(bufContent, s.requestBuffer) == takeContent(readerContent(s.invoke.Payload), interop.MaxPayloadSize))
+//@   ensures [C12: a-repeated-poll-is-served-the-buffered-event] s.invoke.Payload != nil && old(gm(bufLen, s.requestBuffer)) != 0 && r0 == nil ==> ghost(httpLastContent) == old(gm(bufContent, s.requestBuffer)) && ghost(httpLastWriter) == ref(writer)
 //@   ensures [headers-from-the-invoke-record] delta(InvokeHeadersRendered) <= 1 && (r0 == nil ==> delta(InvokeHeadersRendered) == 1) && (delta(InvokeHeadersRendered) == 1 ==> lastarg(InvokeHeadersRendered, 0) == writer && lastarg(InvokeHeadersRendered, 1) == s.invoke.ID && lastarg(InvokeHeadersRendered, 3) == s.invoke.ClientContext && lastarg(InvokeHeadersRendered, 5) == s.invoke.InvokedFunctionArn)
 //@   ensures [payload-delivered] s.invoke.Payload != nil && old(gm(bufLen, s.requestBuffer)) == 0 && readerLen(s.invoke.Payload) <= interop.MaxPayloadSize && r0 == nil ==> ghost(httpLastContent) == readerContent(s.invoke.Payload) && ghost(httpLastLen) == readerLen(s.invoke.Payload) && ghost(httpLastWriter) == ref(writer)
 //@   ensures [payload-cut] s.invoke.Payload != nil && old(gm(bufLen, s.requestBuffer)) == 0 && r0 == nil ==> ghost(httpLastContent) == takeContent(readerContent(s.invoke.Payload), interop.MaxPayloadSize) && ghost(httpLastLen) <= interop.MaxPayloadSize
